@@ -31,6 +31,13 @@ def run(ctx):
     import bundled
     cc.proof_part(ctx)
     pairs = json.load(open(os.path.join(lib.VERIF, "harness", "c19_pairs.json")))["pairs"]
+    # all modules of the pairs are imported first; then unrelated grammar classes define / extend rules named like core
+    # rules (legal, and must not reach the bundled modules): two transcriptions of one construct must still agree
+    for m1, _r1, m2, _r2 in pairs:
+        bundled.load(m1)
+        bundled.load(m2)
+    import pollute
+    pollute.pollute(P)
     rng = random.Random(ctx.seed)
     sg = bundled.SentenceGen(P, rng, maxlen=80)
     per = ctx.budget(60, 1200)
